@@ -60,15 +60,33 @@ def canonErrObjects (t : String) : String :=
   ((((t.replace "s6572726f72:?error text" "s6572726f72:~E").replace "s64657461696c:?detail text" "s64657461696c:~D").replace
     "s736f75726365:?source name" "s736f75726365:~S").replace "s7472616365:?trace" "s7472616365:~T").replace "?int" "~I"
 
-/-- the call frames of the state in creation order (linked ones: a frame whose construction failed stays
-    parentless and is not reported by the code either): scope name, name of the scope it is linked to, and the names
-    it holds IN INSERTION ORDER — `this`, `super`, the parameters come first (`frame_contents`), locals of the body
-    after them; props/C05.py compares the names the real frame held when the body started with that prefix -/
-def framesText (st : St) : String :=
-  let frames := st.scopes.toList.filter fun s => s.name.startsWith "func: " && s.parent.isSome
-  "|".intercalate (frames.map fun s =>
-    let pn := match s.parent with | some p => (st.scopes.getD p default).name | none => ""
-    hexEnc (strBytes s.name) ++ ">" ++ hexEnc (strBytes pn) ++ "[" ++ ",".intercalate (s.vars.map fun kv => hexEnc (strBytes kv.1)) ++ "]")
+/-- is scope `i` a linked call frame (created by `buildFrame`: a scope that is no child of its parent) -/
+def isFrame (st : St) (i : Nat) : Bool :=
+  let s := st.scopes.getD i default
+  match s.parent with
+  | some p => !((st.scopes.getD p default).children.contains i)
+  | none => false
+
+/-- the kinds of the scopes from `i` up to the first call frame or root: b = block scope, f = call frame,
+    g = the global scope, r = another root (the same description c05ScopeChain gives on the Go side) -/
+def scopeChain (st : St) (g : Nat) : Nat → Nat → List String
+  | 0, _ => ["?"]
+  | fuel+1, i =>
+    if isFrame st i then ["f"]
+    else match (st.scopes.getD i default).parent with
+      | none => [if i == g then "g" else "r"]
+      | some p => "b" :: scopeChain st g fuel p
+
+/-- the call frames of the state, structurally: what the frame is linked to (`scopeChain`) and the names it holds IN
+    INSERTION ORDER — `this`, `super`, the parameters come first (`frame_contents`), locals of the body after them;
+    props/C05.py matches every frame the real code reports (names held when the body starts, sorted) with a distinct
+    frame of this list that has the same link and those names as its first ones -/
+def framesText (st : St) (g : Nat) : String :=
+  let idx := (List.range st.scopes.size).filter (isFrame st)
+  "|".intercalate (idx.map fun i =>
+    let s := st.scopes.getD i default
+    let chain := match s.parent with | some p => scopeChain st g 50 p | none => ["?"]
+    ".".intercalate chain ++ "[" ++ ",".intercalate (s.vars.map fun kv => hexEnc (strBytes kv.1)) ++ "]")
 
 def logFrom (st : St) (i : Nat) : String := "|".intercalate (st.log.toList.drop i)
 
@@ -106,7 +124,7 @@ def runSections (secs : List String) : String :=
       let g ← newScope "GlobalScope"
       let p0 ← runSection g prog
       let st0 ← get
-      let head := [p0, "G " ++ globalDump st0 g, "LOG " ++ logText st0, "F " ++ framesText st0]
+      let head := [p0, "G " ++ globalDump st0 g, "LOG " ++ logText st0, "F " ++ framesText st0 g]
       let (ps, ok) ← runProbes g probes
       let st1 ← get
       pure (head ++ ps ++ [if ok then "G " ++ globalDump st1 g else "U"], st0.log.size ≥ 1)
